@@ -72,7 +72,7 @@ fn history(s: &Session, seed: u64, len: usize, ch: &mut Chooser) -> Result<Strin
         // adversary alphabet
         let n_replay = earlier.len();
         let n_stale = challenges.len() - 1;
-        let n = 1 + n_replay + n_stale + 40 + 2 + 160 + 128;
+        let n = 1 + n_replay + n_stale + 40 + 2 + 160 + 128 + 3;
         let c = ch.pick(n, "attempt");
         let (cd, proof, what): ([u8; 16], [u8; 20], String) = if c == 0 {
             (honest.challenge_data, honest.proof, "honest".into())
@@ -110,11 +110,17 @@ fn history(s: &Session, seed: u64, len: usize, ch: &mut Chooser) -> Result<Strin
             let mut p = honest.proof;
             p[bit / 8] ^= 1 << (bit % 8);
             (honest.challenge_data, p, format!("proof-bit{bit}"))
-        } else {
+        } else if c <= n_replay + n_stale + 42 + 160 + 128 {
             let bit = c - n_replay - n_stale - 43 - 160;
             let mut d = honest.challenge_data;
             d[bit / 8] ^= 1 << (bit % 8);
             (d, honest.proof, format!("client-data-bit{bit}"))
+        } else {
+            // client data of a special shape with the RIGHT proof for it (must be accepted): equal to the
+            // server challenge on offer, all zero, all ones
+            let which = c - (n_replay + n_stale + 42 + 160 + 128) - 1;
+            let d: [u8; 16] = [current, [0u8; 16], [0xFF; 16]][which];
+            (d, reconnect_proof(&s.user_norm, &d, &current, &s.k), format!("right-proof-for-special-client-data#{which}"))
         };
         // the server's refresh draw: fresh by default, or (deviation) a repeat of an earlier challenge value
         let r = ch.pick(1 + challenges.len(), "refresh");
